@@ -464,6 +464,8 @@ func runC09(r *Run) {
 	r.Expect("C09.7", 10, "channel make sites")
 
 	// ---------- C09.9 channels owned by another component are closed at most once
+	r.Rule("C09.11", "the mirror's vote handlers dispatch on the looked-up view's id (default arm: panic) only after the lookup reported ViewFound; every other status, ViewWrongCommit included, has already returned a result")
+	viewIDOnlyWhenFound(r, "C09.11")
 	r.Rule("C09.10", "kernel state is not mutated by input that is then rejected: a merge of network / replayed signatures goes into a clone or a fresh proof, or is followed by the summary recomputation on every path (a half-applied rejected replay leaves the live proof ahead of its summary and wedges the mirror)")
 	inPlaceMergeRule(r, "C09.10")
 	r.Rule("C09.9", "the state machine's HeightCommitted channel is closed only when the entrance height equals the committing height before the shift (a second shift for the same entrance cannot close it again: close of a closed channel panics)")
